@@ -505,12 +505,16 @@ def _r2(ctx):
     if w is None:
         ctx.missing("R2", "BaseConfiguration.content:rate_modifier", (CONF, cfn.lineno), "no assignment of chemistry['rate_modifier']")
     else:
-        v = w.value
+        v = _helpers_inlined(pkg, CONF, "BaseConfiguration", w.value)         # a one-expression helper is what it returns
         okw = isinstance(v, ast.DictComp) and isinstance(v.key, ast.Call) and ast.unparse(v.key.func) == "str" and "_ratemodifier" in ast.unparse(v.generators[0].iter) \
             and len(v.generators) == 1 and not v.generators[0].ifs          # every entry, none filtered away
-        ctx.check(okw, "R2", "BaseConfiguration.content:str(key)", (CONF, w.lineno),
-                  "every rate-modifier entry is written, keys as strings (TOML keys; integer keys make tomlkit raise), the inverse of the reader's int(key)",
-                  expected="{str(key): value for key, value in self._ratemodifier.items()}", found=ast.unparse(v)[:90])
+        if not isinstance(v, ast.DictComp) and not _whole_copy(v):
+            # neither a comprehension (read above) nor the stored table handed on as it is (integer keys: a finding): not a shape this rule reads
+            ctx.unrec("R2", "BaseConfiguration.content:str(key)", (CONF, w.lineno), f"cannot tell whether the rate-modifier keys are written as strings: {ast.unparse(v)[:100]}")
+        else:
+            ctx.check(okw, "R2", "BaseConfiguration.content:str(key)", (CONF, w.lineno),
+                      "every rate-modifier entry is written, keys as strings (TOML keys; integer keys make tomlkit raise), the inverse of the reader's int(key)",
+                      expected="{str(key): value for key, value in self._ratemodifier.items()}", found=ast.unparse(v)[:90])
 
 
 def _r3(ctx):
